@@ -320,28 +320,20 @@ Ltac split_run Run :=
       change (fst x = a) in Ea; change (snd x = b) in Eb; clear Run; subst a b
   end.
 
-Theorem step_link trust now (st st' : store) (s : step) :
-  clean_step s = true ->
-  check_step stamp veqb trust now st s = Some st' -> satisfies_step stamp veqb trust s = true.
+Lemma step_judge0 trust now (st st1 : store) (s : step) r cs :
+  (forall sl, In sl (s_slots s) -> stale_new (sl_it sl) = false) ->
+  run_step0 trust now st s = Some (st1, r, cs) ->
+  s_res s = r ->
+  (forall sl, In sl (s_slots s) ->
+     obs_ok veqb (sl_stale sl) (sl_before sl) (obs_of stamp now st (sl_it sl)) = true /\
+     obs_ok veqb (sl_stale sl) (sl_after sl) (obs_of stamp now st1 (sl_it sl)) = true) ->
+  satisfies_step0 stamp veqb trust s = true.
 Proof.
-  intros Hclean. assert (Hcl : forall sl, In sl (s_slots s) -> stale_new (sl_it sl) = false).
-  { intros sl Hin. unfold clean_step in Hclean. rewrite forallb_forall in Hclean.
-    apply negb_true_iff. apply Hclean. exact Hin. }
-  clear Hclean. unfold check_step. destruct (run_step trust now st s) as [[[st1 r] cs]|] eqn:Run; [|discriminate].
-  destruct (forallb _ (s_slots s) && res_eqb (s_res s) r && list_eqb (call_eqb veqb) (s_calls s) cs) eqn:Chk; [|discriminate].
-  intros _. apply andb_true_iff in Chk. destruct Chk as [Chk _].
-  apply andb_true_iff in Chk. destruct Chk as [Hobs Hres].
-  assert (Er : s_res s = r) by (destruct (s_res s), r; cbn in Hres; congruence). clear Hres.
-  assert (Ho : forall sl, In sl (s_slots s) ->
-            obs_ok veqb (sl_stale sl) (sl_before sl) (obs_of stamp now st (sl_it sl)) = true /\
-            obs_ok veqb (sl_stale sl) (sl_after sl) (obs_of stamp now st1 (sl_it sl)) = true).
-  { intros sl Hin. rewrite forallb_forall in Hobs. specialize (Hobs sl Hin).
-    apply andb_true_iff in Hobs. exact Hobs. }
-  clear Hobs. unfold satisfies_step.
+  intros Hcl Run Er Ho. unfold satisfies_step0.
   destruct (in_domain trust s) eqn:D; [|destruct (s_kind s); reflexivity].
   unfold in_domain in D. apply andb_true_iff in D. destruct D as [D Dupd].
   apply andb_true_iff in D. destruct D as [Dcorr T]. apply negb_true_iff in Dcorr.
-  unfold run_step, items_of in Run. rewrite Er. rewrite Dcorr in Run.
+  unfold run_step0, items_of in Run. rewrite Er. rewrite Dcorr in Run.
   destruct (s_kind s) eqn:K; try reflexivity.
   - (* PutPlog *)
     destruct (map sl_it (s_slots s)) as [|it [|? ?]] eqn:Its; try discriminate Run. split_run Run.
@@ -384,6 +376,33 @@ Proof.
     + exact Ho.
 Qed.
 
+Theorem step_link trust now (st st' : store) (s : step) :
+  clean_step s = true ->
+  check_step stamp veqb trust now st s = Some st' -> satisfies_step stamp veqb trust s = true.
+Proof.
+  intros Hclean. unfold clean_step in Hclean. apply andb_true_iff in Hclean. destruct Hclean as [Hclean Hmode].
+  assert (Hcl : forall sl, In sl (s_slots s) -> stale_new (sl_it sl) = false).
+  { intros sl Hin. rewrite forallb_forall in Hclean. apply negb_true_iff. apply Hclean. exact Hin. }
+  clear Hclean. unfold check_step. destruct (run_step trust now st s) as [[[st1 r] cs]|] eqn:Run; [|discriminate].
+  destruct (forallb _ (s_slots s) && res_eqb (s_res s) r && list_eqb (call_eqb veqb) (s_calls s) cs) eqn:Chk; [|discriminate].
+  intros _. apply andb_true_iff in Chk. destruct Chk as [Chk _].
+  apply andb_true_iff in Chk. destruct Chk as [Hobs Hres].
+  assert (Er : s_res s = r) by (destruct (s_res s), r; cbn in Hres; congruence). clear Hres.
+  assert (Ho : forall sl, In sl (s_slots s) ->
+            obs_ok veqb (sl_stale sl) (sl_before sl) (obs_of stamp now st (sl_it sl)) = true /\
+            obs_ok veqb (sl_stale sl) (sl_after sl) (obs_of stamp now st1 (sl_it sl)) = true).
+  { intros sl Hin. rewrite forallb_forall in Hobs. specialize (Hobs sl Hin).
+    apply andb_true_iff in Hobs. exact Hobs. }
+  clear Hobs. unfold satisfies_step. unfold run_step in Run.
+  destruct (s_mode s =? 0) eqn:M0; [eapply step_judge0; eauto|].
+  destruct (s_mode s =? 3) eqn:M3; [reflexivity|].
+  cbn [orb] in Hmode. apply negb_true_iff in Hmode. rewrite Hmode in Run.
+  destruct (is_reapply (s_kind s)); [|discriminate Run].
+  assert (E1 : st1 = st) by congruence. subst st1.
+  apply forallb_forall. intros sl Hin. destruct (Ho sl Hin) as [Hb Ha].
+  rewrite (obs_ok_via _ _ _ _ Ha Hb). apply orb_true_r.
+Qed.
+
 Theorem link_proved (t : gtrace V) :
   gclean t = true -> gagrees stamp veqb t = true -> gsatisfies stamp veqb t = true.
 Proof.
@@ -394,10 +413,30 @@ Proof.
   rewrite (step_link _ _ _ _ _ Hc1 C). cbn. eapply IH; [exact Hc2|exact H].
 Qed.
 
-Lemma gclean_off (t : gtrace V) : c05_update_inherits_isnew = false -> gclean t = true.
+Lemma accepts_off m : c05_refused_plog_marks_stored = false -> c05_failed_plog_marks_stored = false ->
+  (m =? 0) = false -> reapplier_accepts m = false.
+Proof. intros E1 E2 M. unfold reapplier_accepts. rewrite M, E1, E2. destruct (m =? 1), (m =? 2); reflexivity. Qed.
+
+Lemma gclean_off (t : gtrace V) :
+  c05_update_inherits_isnew = false -> c05_refused_plog_marks_stored = false -> c05_failed_plog_marks_stored = false ->
+  gclean t = true.
 Proof.
-  intros E. unfold gclean, clean_step. apply forallb_forall. intros s _. apply forallb_forall. intros sl _.
-  rewrite (stale_new_off _ E). reflexivity.
+  intros E E1 E2. unfold gclean, clean_step. apply forallb_forall. intros s _. apply andb_true_iff. split.
+  - apply forallb_forall. intros sl _. rewrite (stale_new_off _ E). reflexivity.
+  - destruct (s_mode s =? 0) eqn:M; [reflexivity|]. rewrite (accepts_off _ E1 E2 M). apply orb_true_r.
+Qed.
+
+(* with the first two marks off (the code as it is), the only unclean steps are re-applies of an event whose
+   PutPlog failed with a storage error *)
+Lemma gclean_but_failed (t : gtrace V) :
+  c05_update_inherits_isnew = false -> c05_refused_plog_marks_stored = false -> no_failed_reapply t = true ->
+  gclean t = true.
+Proof.
+  intros E E1 NF. unfold gclean, clean_step, no_failed_reapply in *. apply forallb_forall. intros s Hin.
+  rewrite forallb_forall in NF. specialize (NF s Hin). apply negb_true_iff in NF. apply andb_true_iff. split.
+  - apply forallb_forall. intros sl _. rewrite (stale_new_off _ E). reflexivity.
+  - destruct (s_mode s =? 0) eqn:M; [reflexivity|]. unfold reapplier_accepts. rewrite M, NF, E1.
+    destruct (s_mode s =? 1); cbn; apply orb_true_r.
 Qed.
 
 (* ---- the clauses of the statement, about the writers themselves ---- *)
@@ -571,9 +610,43 @@ Proof.
 Qed.
 
 Corollary link_full_proved (t : gtrace V) :
-  c05_update_inherits_isnew = false \/ gclean t = true ->
+  (c05_update_inherits_isnew = false /\ c05_refused_plog_marks_stored = false /\ c05_failed_plog_marks_stored = false)
+  \/ gclean t = true ->
   gagrees stamp veqb t = true -> gsatisfies stamp veqb t = true.
-Proof. intros [E | C]; apply link_proved; [apply gclean_off; exact E | exact C]. Qed.
+Proof. intros [[E [E1 E2]] | C]; apply link_proved; [apply gclean_off; assumption | exact C]. Qed.
+
+Corollary link_but_failed_proved (t : gtrace V) :
+  c05_update_inherits_isnew = false -> c05_refused_plog_marks_stored = false ->
+  c05_failed_plog_marks_stored = false \/ no_failed_reapply t = true ->
+  gagrees stamp veqb t = true -> gsatisfies stamp veqb t = true.
+Proof.
+  intros E E1 [E2 | NF]; apply link_proved; [apply gclean_off | apply gclean_but_failed]; assumption.
+Qed.
+
+(* GetEventReapplier refuses an event object that is not marked as stored: nothing is written *)
+Lemma unstored_event_not_reappliable_proved trust now (st : store) (s : step) :
+  (s_mode s =? 0) = false -> (s_mode s =? 3) = false -> is_reapply (s_kind s) = true ->
+  reapplier_accepts (s_mode s) = false ->
+  run_step trust now st s = Some (st, RPanic, []).
+Proof. intros M0 M3 K A. unfold run_step. rewrite M0, M3, K, A. reflexivity. Qed.
+
+Lemma refused_event_not_reappliable_proved :
+  c05_refused_plog_marks_stored = false ->
+  forall trust now (st : store) (s : step), s_mode s = 1 -> is_reapply (s_kind s) = true ->
+  run_step trust now st s = Some (st, RPanic, []).
+Proof.
+  intros E trust now st s M K. apply unstored_event_not_reappliable_proved; rewrite ?M;
+    [reflexivity | reflexivity | exact K | unfold reapplier_accepts; cbn; exact E].
+Qed.
+
+Lemma failed_event_not_reappliable_proved :
+  c05_failed_plog_marks_stored = false ->
+  forall trust now (st : store) (s : step), s_mode s = 2 -> is_reapply (s_kind s) = true ->
+  run_step trust now st s = Some (st, RPanic, []).
+Proof.
+  intros E trust now st s M K. apply unstored_event_not_reappliable_proved; rewrite ?M;
+    [reflexivity | reflexivity | exact K | unfold reapplier_accepts; cbn; exact E].
+Qed.
 
 End Engine.
 
@@ -592,4 +665,22 @@ Proof.
     | exists 0%Z, (put [] [1] [2] 7), [mkItem [1] [2] 1 false true false 8];
       split; [reflexivity|]; split; [repeat constructor; intros []|];
       split; [intros it [<-|[]]; split; reflexivity | vm_compute; reflexivity] ].
+Qed.
+
+(* While PutPlog marks an event as stored although its storage write failed, such an event is accepted by
+   GetEventReapplier and its ApplyRecords overwrites an existing record at level 0 (finding P-D). *)
+Lemma failed_event_reappliable_refuted_proved :
+  c05_failed_plog_marks_stored = true ->
+  exists (st st' : store N) (s : step N) cs,
+    s_mode s = 2 /\ s_kind s = KReapplyRecs /\
+    run_step 0 0%Z st s = Some (st', ROk, cs) /\
+    get 0%Z st [1] [2] = Some 7 /\ get 0%Z st' [1] [2] = Some 8.
+Proof.
+  intros H. unfold c05_failed_plog_marks_stored in H.
+  first
+    [ discriminate H
+    | exists (put [] [1] [2] 7), (put (put [] [1] [2] 7) [1] [2] 8),
+        (mkStep KReapplyRecs 2 false [mkSlot (mkItem [1] [2] 1 true false false 8) false (mkObs None None None) (mkObs None None None)] ROk []),
+        [CBatch [([1], [2], 8)]];
+      repeat split; vm_compute; reflexivity ].
 Qed.
